@@ -40,7 +40,9 @@ def replacements(sel, spos):
            ('all changed', ['Xe'] * k, spos.copy()),
            ('all retained + one inserted', list(sel) + ['F'], np.vstack([spos, spos[0] + [0.2, 1.0, 0.3]])),
            ('identical', list(sel), spos.copy()),
-           ('smaller: first atom only', [sel[0]], spos[:1].copy())]
+           ('smaller: first atom only', [sel[0]], spos[:1].copy()),
+           ('last retained, listed first', [sel[-1]] + ['Xe'] * (k - 1), np.vstack([spos[-1:], spos[:-1]])),
+           ('identical, listed in reverse', list(sel)[::-1], spos[::-1].copy())]
     return out
 
 
@@ -55,7 +57,7 @@ def plan(tier, seed):
             for qi in range(len(SEARCH)):
                 if not set(SEARCH[qi][1]) <= set(STRUCTS[si][1]):
                     continue
-                for ri in range(7):
+                for ri in range(9):
                     for pl in range(len(PLACES)):
                         for ra in (0, 1):
                             for ig in (0, 1):
